@@ -227,6 +227,30 @@ func runLoss(c LossCase) ev.Verdict {
 		}
 	}
 
+	// ... and so do the channel's own exported reads (a caller polling a console): once whatever
+	// was buffered has been handed out they report the loss instead of "nothing yet" for ever
+	if !s.open && s.ch != nil && c.Kind != "write" {
+		for _, name := range []string{"Read", "ReadAll"} {
+			var rerr error
+
+			for i := 0; i < 400 && rerr == nil; i++ {
+				if name == "Read" {
+					_, rerr = s.ch.Read()
+				} else {
+					_, rerr = s.ch.ReadAll()
+				}
+
+				time.Sleep(rd)
+			}
+
+			if rerr == nil {
+				return ev.Fail("%s: Channel.%s still reports no error 400 polls after the connection was lost (%s)", c.Op, name, c.Kind)
+			}
+		}
+
+		v.Classes = append(v.Classes, "channel-reads-after-loss")
+	}
+
 	closed := make(chan struct{})
 
 	go func() { s.closeF(); close(closed) }()
